@@ -219,7 +219,8 @@ def validateField (v : VCtx) (m : MessageD) (f : FieldD) : V :=
   seq (guardV (f.p.proto3Optional && (match f.containingOneof with
         | some k => (match m.oneofs[k]? with | some o => o.members.length != 1 | none => false)
         | none => false)) .proto3OptionalOneof) <|
-  seq (guardV (f.isPacked && !isPackable f) .notPackable) <|
+  -- `fd.GetOptions().GetPacked() && !isPackable(f)` (622c0ae: the option, not `IsPacked()`, is consulted)
+  seq (guardV (f.p.packed == some true && !isPackable f) .notPackable) <|
   seq (guardV (checkValidGroup v.env v.all v.edition f) .badGroup) <|
   seq (guardV (checkValidMap v.env v.all f) .badMap) <|
   seq (guardV (isProto3 && f.cardinality == cRequired) .proto3Required) <|
@@ -272,7 +273,7 @@ def validateExtension (v : VCtx) (x : FieldD) : V :=
         seq (guardV (!fieldRangesHas md.extRanges n) .extNotInRange) <|
         seq (guardV (md.messageSet && !((x.kind == 0 || x.kind == kMessage) && x.cardinality == cOptional)) .extMessageSetType) <|
         guardV (!md.messageSet && !numberIsValid n) .extBadNumberNonMessageSet) <|
-  seq (guardV (x.isPacked && !isPackable x) .notPackable) <|
+  seq (guardV (x.p.packed == some true && !isPackable x) .notPackable) <|
   seq (guardV (checkValidGroup v.env v.all v.edition x) .badGroup) <|
   seq (guardV (match x.messageT with | some t => (msgInfo v.env v.all t).mapEntry | none => false) .extMapEntry) <|
   guardV (v.edition == editionProto3 && (match x.extendeeT with
